@@ -19,6 +19,7 @@ import (
 	"log/slog"
 	"net/http"
 	"strconv"
+	"strings"
 	"time"
 )
 
@@ -72,7 +73,9 @@ func calculateCurrentAge(
 ) *Age {
 	ageVal := 0
 	if ageStr := h.Get("Age"); ageStr != "" {
-		ageVal, _ = strconv.Atoi(ageStr)
+		// Of a list-based value the first member is used (RFC9111 §5.1).
+		ageStr, _, _ = strings.Cut(ageStr, ",")
+		ageVal, _ = strconv.Atoi(strings.TrimSpace(ageStr))
 		// Negative values are invalid; values too large to represent saturate
 		// instead of wrapping around (RFC9111 §1.2.2).
 		ageVal = int(min(max(int64(ageVal), 0), maxDeltaSeconds))
